@@ -430,7 +430,9 @@ fn write_events_on(r: &RunResult, path: &str) -> Vec<String> {
         .filter_map(|e| match &e.kind {
             Ev::Fs { op, path: p, path2, flags, .. } => {
                 let writes = match op.as_str() {
-                    "open" => flags.contains('w') || flags.contains('c') || flags.contains('t'),
+                    // Opening with write access changes nothing by itself (an implementation may open read+write,
+                    // compare, and decide): only truncation on open is an effect. Writes are events of their own.
+                    "open" => flags.contains('t'),
                     "write" | "truncate" | "unlink" | "mkdir" | "rmdir" | "symlink" => true,
                     "rename" | "link" => true,
                     _ => false,
